@@ -103,6 +103,12 @@ func NewEngine(prog *ssa.Program, allow func(string) bool) *Engine {
 			}
 		}
 	}
+	// os.Args as in a real process (package os's initialiser is not run)
+	if osPkg := prog.ImportedPackage("os"); osPkg != nil {
+		if g, ok := osPkg.Members["Args"].(*ssa.Global); ok {
+			*i.globals[g] = []value{"pangaea"}
+		}
+	}
 	e := &Engine{i: i, InitAllow: allow, X: NewExplorer(), Funcs: map[*ssa.Function]int64{}, PermutedRanges: map[string]int{}}
 	theEngine = e
 	return e
